@@ -21,14 +21,15 @@ RULE = ("1-3 layers x 1-2 documents of map-rooted trees over printable strings, 
         "against their expanded form; non-trivial = a number is compared or carried across formats; distinct by hash")
 
 NUMS = [0, 1, 2, -1, 7, 2147483647, 2147483648, -2147483648, -2147483649, 9007199254740993, 9223372036854775807, -9223372036854775807,
-        F("0.1"), F("1e-07"), F("1e+21"), F("5e-324"), F("1.7976931348623157e+308"), F("0.5"), F("-2.25"), F("123456.789")]
+        F("0.1"), F("1e-07"), F("1e+21"), F("5e-324"), F("1.7976931348623157e+308"), F("0.5"), F("-2.25"), F("123456.789"),
+        F("3"), F("2"), F("1000"), F("-1")]          # whole-valued doubles: must stay doubles, in every format
 STRS = ["s", "t", "é", "a b", "x:y", "#c", "1", "true", "~", "- x", "'q'", "\"dq\"", "tab\tx", "nl\nx", ""]
 
 
 def base_doc(rng):
-    d = {"id": rng.pick(NUMS[:8]), "n": rng.pick(NUMS), "f": rng.pick(NUMS[12:]), "s": rng.pick(STRS), "b": rng.chance(1, 2),
+    d = {"id": rng.pick(NUMS[:8] + NUMS[-4:]), "n": rng.pick(NUMS), "f": rng.pick(NUMS[12:]), "s": rng.pick(STRS), "b": rng.chance(1, 2),
          "m": {"k": rng.pick(NUMS), "deep": {"z": rng.pick(NUMS), "l": [rng.pick(NUMS), rng.pick(STRS)]}},
-         "items": [{"id": i, "v": rng.pick(NUMS)} for i in range(1 + rng.below(3))],
+         "items": [{"id": (i if rng.chance(2, 3) else F(str(i + 2))), "v": rng.pick(NUMS)} for i in range(1 + rng.below(3))],
          "nums": [rng.pick(NUMS) for _ in range(rng.below(4))]}
     if rng.chance(1, 4):
         d["e"] = {}
@@ -85,6 +86,23 @@ def toml_table_text():
     text = "a.b = 1\na.c = \"x\"\n[t]\nk = 2\n[t.u]\nv = [1, 2]\n[[arr]]\nid = 1\n[[arr]]\nid = 2\nw = 0.1\n"
     tree = {"a": {"b": 1, "c": "x"}, "t": {"k": 2, "u": {"v": [1, 2]}}, "arr": [{"id": 1}, {"id": 2, "w": F("0.1")}]}
     return text, tree
+
+
+def numeric_canon(v):
+    """JSON output prints a whole-valued double like the integer; compare such numbers by value"""
+    if isinstance(v, F):
+        try:
+            x = float(str(v))
+            if x == int(x) and abs(x) < 2 ** 53:
+                return int(x)
+        except Exception:
+            pass
+        return v
+    if isinstance(v, dict):
+        return {k: numeric_canon(x) for k, x in v.items()}
+    if isinstance(v, list):
+        return [numeric_canon(x) for x in v]
+    return v
 
 
 def has_bad_types(v):
@@ -152,7 +170,7 @@ def run(ctx):
                 why = "bkl %s but the model %s" % ("succeeds" if rc == 0 else "fails (%s)" % err.strip()[-150:], "evaluates" if m[0] == "ok" else "reports " + m[1])
             elif m[0] == "ok":
                 got = core.parse_json_docs(out.decode("utf-8", "replace"))
-                if not veq(got, m[1][1]):
+                if not veq(numeric_canon(got), numeric_canon(m[1][1])):
                     why = "numbers or values changed: output %s, model %s" % (hist.short(got), hist.short(m[1][1]))
         dist["accepted" if ref[1][0] == 0 else "rejected"] += 1
         h = core.vhash(contents[ci])
